@@ -552,32 +552,10 @@ func (a *FA) lin(v ssa.Value, depth int) Lin {
 				if LY.K != 0 {
 					ny++
 				}
-				unit := func(L Lin) bool {
-					for _, c := range L.T {
-						if c != 1 && c != -1 {
-							return false
-						}
+				if nx > 1 || ny > 1 {
+					if res, ok := linMul(LX, LY); ok {
+						return res
 					}
-					return true
-				}
-				if (nx > 1 || ny > 1) && nx <= 3 && ny <= 3 && unit(LX) && unit(LY) {
-					res := linConst(LX.K * LY.K)
-					res = res.addScaled(Lin{T: LX.T}, LY.K)
-					res = res.addScaled(Lin{T: LY.T}, LX.K)
-					for ax, cx := range LX.T {
-						for ay, cy := range LY.T {
-							l, r := ax, ay
-							if r < l {
-								l, r = r, l
-							}
-							name := "(* " + l + " " + r + ")"
-							res.T[name] += cx * cy
-							if res.T[name] == 0 {
-								delete(res.T, name)
-							}
-						}
-					}
-					return res
 				}
 			}
 		case token.SHL:
@@ -622,6 +600,77 @@ func (a *FA) lin(v ssa.Value, depth int) Lin {
 		}
 	}
 	return linAtom(a.VN(v))
+}
+
+// loopExit: one CFG edge that leaves a natural loop, with the branch it is taken on (If == nil: unconditional).
+type loopExit struct {
+	From *ssa.BasicBlock
+	If   *ssa.If
+	Cond ssa.Value // condition with negations stripped
+	Pol  bool      // truth value of Cond on the exiting edge
+}
+
+// loopExits lists the edges that leave the natural loop with header hdr.
+func (a *FA) loopExits(hdr *ssa.BasicBlock) []loopExit {
+	inLoop := func(b *ssa.BasicBlock) bool { return hdr.Dominates(b) && a.Reaches(b, hdr) }
+	var out []loopExit
+	for _, b := range hdr.Parent().Blocks {
+		if !inLoop(b) {
+			continue
+		}
+		for k, sc := range b.Succs {
+			if inLoop(sc) {
+				continue
+			}
+			ex := loopExit{From: b}
+			if ifi, ok := b.Instrs[len(b.Instrs)-1].(*ssa.If); ok && len(b.Succs) == 2 {
+				ex.If = ifi
+				ex.Cond, ex.Pol = ifi.Cond, k == 0
+				for {
+					u, ok := ex.Cond.(*ssa.UnOp)
+					if !ok || u.Op != token.NOT {
+						break
+					}
+					ex.Cond, ex.Pol = u.X, !ex.Pol
+				}
+			}
+			out = append(out, ex)
+		}
+	}
+	return out
+}
+
+// linMul multiplies two small linear forms with unit coefficients: the products of their atoms carry the name the
+// value numbering gives to a product of those two values, "(* l r)" with sorted operands.
+func linMul(LX, LY Lin) (Lin, bool) {
+	unit := func(L Lin) bool {
+		for _, c := range L.T {
+			if c != 1 && c != -1 {
+				return false
+			}
+		}
+		return true
+	}
+	if len(LX.T) > 3 || len(LY.T) > 3 || !unit(LX) || !unit(LY) {
+		return Lin{}, false
+	}
+	res := linConst(LX.K * LY.K)
+	res = res.addScaled(Lin{T: LX.T}, LY.K)
+	res = res.addScaled(Lin{T: LY.T}, LX.K)
+	for ax, cx := range LX.T {
+		for ay, cy := range LY.T {
+			l, r := ax, ay
+			if r < l {
+				l, r = r, l
+			}
+			name := "(* " + l + " " + r + ")"
+			res.T[name] += cx * cy
+			if res.T[name] == 0 {
+				delete(res.T, name)
+			}
+		}
+	}
+	return res, true
 }
 
 // LinAlts expands the merge phis (not loop-header phis) that occur as atoms of the linear form of v into their
@@ -836,6 +885,16 @@ func (a *FA) BoundsAt(blk *ssa.BasicBlock, L Lin) Bounds {
 
 func (a *FA) boundsFrom(conds []Cond, L Lin) Bounds {
 	var bd Bounds
+	// what the value is by construction: a math/bits count lies in [0, width]
+	if v := a.AtomValueOfLin(L); v != nil {
+		if call, ok := v.(*ssa.Call); ok {
+			if wd := bitsCountWidth(calleeName(call.Common())); wd > 0 {
+				bd.lower(0, "a bit count")
+				bd.upper(wd, "a bit count")
+			}
+		}
+	}
+	var ne []int64 // L != k
 	for _, c := range conds {
 		D, op, ok := a.CondRel(c)
 		if !ok {
@@ -845,12 +904,53 @@ func (a *FA) boundsFrom(conds []Cond, L Lin) Bounds {
 		if d := D.Sub(L); d.IsConst() {
 			// L + k op 0
 			applyRel(&bd, d.K, op, why)
+			if op == opNE {
+				ne = append(ne, -d.K)
+			}
 		} else if d := D.Add(L); d.IsConst() {
 			// -L + k op 0  <=>  L - k flip(op) 0
 			applyRel(&bd, -d.K, flipOp(op), why)
+			if op == opNE {
+				ne = append(ne, d.K)
+			}
+		}
+	}
+	// an excluded end point tightens the interval
+	for round := 0; round < 3; round++ {
+		for _, k := range ne {
+			if bd.HasHi && bd.Hi == k {
+				bd.Hi = k - 1
+			}
+			if bd.HasLo && bd.Lo == k {
+				bd.Lo = k + 1
+			}
 		}
 	}
 	return bd
+}
+
+// bitsCountWidth: the largest value a math/bits counting function returns (0: not such a function; platform-width
+// variants are left out).
+func bitsCountWidth(name string) int64 {
+	if !strings.HasPrefix(name, "math/bits.") {
+		return 0
+	}
+	n := strings.TrimPrefix(name, "math/bits.")
+	for _, p := range []string{"LeadingZeros", "TrailingZeros", "OnesCount", "Len"} {
+		if strings.HasPrefix(n, p) {
+			switch strings.TrimPrefix(n, p) {
+			case "64":
+				return 64
+			case "32":
+				return 32
+			case "16":
+				return 16
+			case "8":
+				return 8
+			}
+		}
+	}
+	return 0
 }
 
 // applyRel: L + k op 0
